@@ -110,7 +110,7 @@ def prob_product(eng, res, rule="R-PROB-PRODUCT"):
     rets = [r for r in own_nodes(f.node) if isinstance(r, ast.Return) and r.value is not None]
     vals = [(src(flow.expand_names(r.value, cfg.node_of(r))), {t for t, p in _guards(flow, r) if p}) for r in rets]
     full = [v for v in vals if "_log_prob" in v[0]]
-    ok = len(full) == 1 and augs and full[0][0] == f"self._log_prob + {augs[0].target.id}" and full[0][1] == {"self.fully_explored", "len(self._open_atoms) == 0"}
+    ok = len(full) == 1 and augs and full[0][0] == f"self._log_prob + {augs[0].target.id}" and full[0][1] == {"self.fully_explored", "not self._open_atoms"}
     other = [v for v in vals if "_log_prob" not in v[0]]
     ok = ok and all(v[0] == "-np.inf" for v in other) and len(other) == 1
     res.ob(rule, f, "final-value", "probability = path probability x interval probabilities, only for a fully explored match without open atoms; otherwise 0", f.node, ok, f"{vals}")
